@@ -3,8 +3,10 @@ package wl
 import (
 	"encoding/json"
 	"fmt"
+	"github.com/xelaj/errs"
 	"github.com/xelaj/mtproto/internal/transport"
 	"math/rand"
+	"os"
 	"reflect"
 	"sort"
 	"strings"
@@ -143,6 +145,7 @@ type rpcEnv struct {
 	mu       sync.Mutex
 	recv     []recvRec
 	pending  []pendingReq
+	mem      *memStore      // non-nil: the session lives in the application own storage
 	mixed    bool           // answers travel in containers together with updates and service notes
 	sentCont map[int64]bool // msg_ids of content-related messages the server sent (alone or in containers)
 	acked    map[int64]bool
@@ -159,6 +162,8 @@ type envOpts struct {
 	Any     func(e *rpcEnv, cn *refserver.Conn, in *mtp.Inner) bool
 	// NoWarnings: the application did not ask for warnings (MTProto.Warnings stays nil)
 	NoWarnings bool
+	// MemStore: the application brings its own session storage (Config.SessionStorage) instead of a file
+	MemStore bool
 	// Plain: no mixing of non-answer items into answer containers (workloads that count what they sent themselves)
 	Plain bool
 }
@@ -177,6 +182,10 @@ func newRPCEnv(c *wk.Ctx, idx int, r *rand.Rand, o envOpts) (*rpcEnv, error) {
 		c.Count("server_clock.1971", 1)
 	}
 	e.sess = e.w.sessionPath("s")
+	if o.MemStore {
+		e.mem = &memStore{}
+		e.w.store = e.mem
+	}
 	if !o.Fresh {
 		e.key = rbytes(r, 256)
 		switch idx % 9 {
@@ -190,7 +199,11 @@ func newRPCEnv(c *wk.Ctx, idx int, r *rand.Rand, o envOpts) (*rpcEnv, error) {
 		salt := int64(r.Uint64())
 		e.w.keys.Add(e.key)
 		e.srv.SetSalt(e.key, salt)
-		if err := session.NewFromFile(e.sess).Store(&session.Session{Key: e.key, Hash: mtp.AuthKeyID(e.key), Salt: salt, Hostname: e.srv.Addr}); err != nil {
+		var st session.SessionLoader = session.NewFromFile(e.sess)
+		if e.mem != nil {
+			st = e.mem
+		}
+		if err := st.Store(&session.Session{Key: e.key, Hash: mtp.AuthKeyID(e.key), Salt: salt, Hostname: e.srv.Addr}); err != nil {
 			return nil, err
 		}
 	}
@@ -603,3 +616,46 @@ func sortedKinds(m map[string]int) string {
 }
 
 func toJSON(v interface{}) string { b, _ := json.Marshal(v); return string(b) }
+
+// memStore is an application-supplied session storage (what Config.SessionStorage is for).
+type memStore struct {
+	mu       sync.Mutex
+	s        *session.Session
+	stores   int
+	slowNext int32 // 1: the next Store takes 200 ms
+}
+
+func (m *memStore) Load() (*session.Session, error) {
+	m.mu.Lock()
+	defer m.mu.Unlock()
+	if m.s == nil {
+		return nil, errs.NotFound("session", "memory")
+	}
+	cp := *m.s
+	cp.Key, cp.Hash = append([]byte{}, m.s.Key...), append([]byte{}, m.s.Hash...)
+	return &cp, nil
+}
+
+func (m *memStore) Store(s *session.Session) error {
+	if atomic.CompareAndSwapInt32(&m.slowNext, 1, 0) {
+		time.Sleep(200 * time.Millisecond) // a slow medium, once
+	}
+	m.mu.Lock()
+	defer m.mu.Unlock()
+	cp := *s
+	cp.Key, cp.Hash = append([]byte{}, s.Key...), append([]byte{}, s.Hash...)
+	m.s = &cp
+	m.stores++
+	return nil
+}
+
+// storedSession reads what the session store holds now (file or application storage).
+func (e *rpcEnv) storedSession() (*session.Session, error) {
+	if e.mem != nil {
+		return e.mem.Load()
+	}
+	if _, err := os.Stat(e.sess); err != nil {
+		return nil, err
+	}
+	return session.NewFromFile(e.sess).Load()
+}
